@@ -75,235 +75,69 @@ func checkC07(p *Prog, res *Result, tier string) {
 		return ok && fieldOf(fa) == f
 	}
 
+	// ---- deletion sites: every call chain from the scan loop down to an engine delete ----
+	inScanner := func(f *ssa.Function) bool { return f.Pkg == sp }
+	isEngineDelete := func(ins ssa.Instruction) bool {
+		c, ok := ins.(ssa.CallInstruction)
+		return ok && c.Common().IsInvoke() && (c.Common().Method == r.KVDel || c.Common().Method == r.KVDelCurrent)
+	}
+	chains := enumerateChains(p, run, isEngineDelete, inScanner, 6)
+	consultsTTL := func(f *ssa.Function) bool {
+		for _, c := range callsIn(f) {
+			if c.Common().IsInvoke() && c.Common().Method == r.KVSupportTTL {
+				return true
+			}
+		}
+		return false
+	}
 	type site struct {
-		call ssa.CallInstruction
-		prim string // Del / DelCurrent
+		ch   callChain
+		prim string
 		role string
-		fn   *ssa.Function
 	}
 	var sites []site
-	for _, c := range callsIn(run) {
-		sc := c.Common().StaticCallee()
-		if sc == nil || sc.Pkg != sp {
-			continue
-		}
-		prim := reachesStorageDelete(p, r, sc, 1)
-		if prim == "" {
-			continue
-		}
-		// skip the expiry helper (it contains its own sites, governed by C17) but remember it for R1
-		hasTTL := false
-		for _, c2 := range callsIn(sc) {
-			if c2.Common().IsInvoke() && c2.Common().Method == r.KVSupportTTL {
-				hasTTL = true
+	for _, ch := range chains {
+		e := ch.target.(ssa.CallInstruction)
+		st := site{ch: ch, prim: "Del", role: "?"}
+		expiry := false
+		for _, f := range ch.fns[1:] {
+			if consultsTTL(f) {
+				expiry = true
 			}
 		}
-		if hasTTL {
-			sites = append(sites, site{c, prim, "expiry", run})
-			continue
-		}
-		role := "?"
-		if prim == "DelCurrent" {
-			role = "current index"
-		} else {
-			// key operand: first []byte argument after the receiver
-			var key ssa.Value
-			for _, a := range c.Common().Args[1:] {
-				if _, ok := a.Type().Underlying().(*types.Slice); ok {
-					key = a
-					break
+		switch {
+		case expiry:
+			st.role = "expiry"
+			if e.Common().Method == r.KVDelCurrent {
+				st.prim = "DelCurrent"
+			}
+		case e.Common().Method == r.KVDelCurrent:
+			st.prim, st.role = "DelCurrent", "current index"
+		default:
+			key := ch.up(argForSigParam(e, 1), len(ch.fns)-1)
+			if kc, ok := key.(*ssa.Call); ok {
+				switch {
+				case r.is(kc, r.EncObj) && !isZeroConst(argForSigParam(kc, 1)):
+					st.role = "previous version"
+				case r.is(kc, r.ItKey):
+					st.role = "current record"
 				}
 			}
-			kp := p.keyProvenance(key)
-			switch kp.Kind {
-			case keyVersion:
-				role = "previous version"
-			case keyIter:
-				role = "current record"
-			}
 		}
-		sites = append(sites, site{c, prim, role, run})
+		sites = append(sites, st)
 	}
 	roleCount := map[string]int{}
 	for _, s := range sites {
 		roleCount[s.role]++
 	}
 	res.Stats["deletion_sites"] = roleCount
-
-	var prevSite, markerSite ssa.Instruction
+	var chainList []string
 	for _, s := range sites {
-		b := s.call.Block()
-		facts := dominatingFacts(b)
-		pos := p.pos(s.call.Pos())
-		// ---- R1 ----
-		construct := fmt.Sprintf("%s: %s site runs only when compacting", funcName(run), s.role)
-		underCompact := false
-		for _, cf := range facts {
-			if isFieldLoad(cf.Raw, compactF) && cf.Want {
-				underCompact = true
-			}
-		}
-		if s.role == "expiry" {
-			// guarded inside the helper by timeoutRevision != 0 (C17-R5 checks SupportTTL); the timeout revision is
-			// non-zero only under compact: every store into workerConfig.timeoutRevision is 0 or assigned under compact
-			helper := s.call.Common().StaticCallee()
-			okGuard := true
-			for _, c2 := range callsIn(helper) {
-				sc2 := c2.Common().StaticCallee()
-				if sc2 == nil || reachesStorageDelete(p, r, sc2, 1) == "" {
-					continue
-				}
-				g := false
-				for _, cf := range dominatingFacts(c2.Block()) {
-					if cf.X != nil && isFieldLoad(cf.X, timeoutF) && isZeroConst(cf.Y) && ((cf.Op == token.EQL && !cf.Want) || (cf.Op == token.NEQ && cf.Want)) {
-						g = true
-					}
-				}
-				if !g {
-					okGuard = false
-				}
-			}
-			producedUnderCompact := true
-			for _, st := range p.fields().stores[timeoutF] {
-				for _, v := range allCellValues(p, st.Val) {
-					if isZeroConst(v) {
-						continue
-					}
-					if _, isParam := v.(*ssa.Parameter); isParam {
-						continue
-					}
-					// a non-zero value: its defining instruction must be under `compact`
-					ins := valueInstr(v)
-					if ex, ok := v.(*ssa.Extract); ok {
-						ins = ex.Tuple.(ssa.Instruction)
-					}
-					if ins == nil {
-						producedUnderCompact = false
-						continue
-					}
-					g := false
-					for _, cf := range dominatingFacts(ins.Block()) {
-						// the scan's own `compact` parameter (possibly spilled to a cell)
-						if prm, ok := p.resolveDeep(cf.Raw).(*ssa.Parameter); ok && cf.Want {
-							if bt, ok := prm.Type().Underlying().(*types.Basic); ok && bt.Kind() == types.Bool {
-								g = true
-							}
-						}
-					}
-					if !g {
-						producedUnderCompact = false
-					}
-				}
-			}
-			switch {
-			case !okGuard:
-				res.bad("C07-R1", construct, pos, "an expiry delete is not guarded by a non-zero timeout revision: a plain range read could delete records")
-			case !producedUnderCompact:
-				res.bad("C07-R1", construct, pos, "the timeout revision can be non-zero for a scan that is not a compaction: range reads would expire records")
-			default:
-				res.ok("C07-R1", construct, pos, "guarded by timeoutRevision != 0, which is assigned non-zero only under the scan's compact flag")
-			}
-			continue
-		}
-		if underCompact {
-			res.ok("C07-R1", construct, pos, "dominated by workerConfig.compact == true")
-		} else {
-			res.bad("C07-R1", construct, pos, "a deletion site of the scan worker is reachable when the worker is not compacting: a range read deletes data")
-		}
-		// ---- R2 ----
-		construct = fmt.Sprintf("%s: %s site deletes nothing above the compaction revision", funcName(run), s.role)
-		notAbove := false
-		for _, cf := range facts {
-			if cf.X != nil && resolve(cf.X) == curRev && isFieldLoad(cf.Y, revF) && ((cf.Op == token.GTR && !cf.Want) || (cf.Op == token.LEQ && cf.Want)) {
-				notAbove = true
-			}
-		}
-		if !notAbove {
-			res.bad("C07-R2", construct, pos, "the site is not dominated by the false branch of 'decoded revision > compaction revision': versions newer than R can be deleted and reads at >= R change")
-		} else if s.role != "current index" {
-			res.ok("C07-R2", construct, pos, "dominated by decoded revision <= R")
-		} else {
-			isIdx, len9, parsedOK := false, false, false
-			for _, cf := range facts {
-				if cf.X == nil {
-					continue
-				}
-				if resolve(cf.X) == curRev && isZeroConst(cf.Y) && ((cf.Op == token.EQL && cf.Want) || (cf.Op == token.NEQ && !cf.Want)) {
-					isIdx = true
-				}
-				if k, ok := constInt(cf.Y); ok && k == 9 && strings.HasPrefix(pureKey(cf.X), "len(") && ((cf.Op == token.EQL && cf.Want) || (cf.Op == token.NEQ && !cf.Want)) {
-					len9 = true
-				}
-				if _, ok := decodedUint64(cf.X); ok && isFieldLoad(cf.Y, revF) && ((cf.Op == token.GTR && !cf.Want) || (cf.Op == token.LEQ && cf.Want)) {
-					parsedOK = true
-				}
-			}
-			switch {
-			case s.prim != "DelCurrent":
-				res.bad("C07-R2", construct, pos, "the index record is removed by an unconditional delete instead of compare-and-delete: a key re-created since the snapshot loses its index")
-			case !isIdx || !len9:
-				res.bad("C07-R2", construct, pos, "the index site is not restricted to index records (revision == 0) carrying the deletion flag (9 bytes): live keys lose their index")
-			case !parsedOK:
-				res.bad("C07-R2", construct, pos, "the index of a deleted key is removed without comparing the revision stored in it with the compaction revision: a delete newer than R (or an unresolved unknown-outcome delete) is compacted away")
-			default:
-				res.ok("C07-R2", construct, pos, "revision == 0, 9-byte value, parsed revision <= R, compare-and-delete")
-			}
-		}
-		// ---- R3 ----
-		if s.role == "previous version" {
-			prevSite = s.call.(ssa.Instruction)
-			construct = fmt.Sprintf("%s: previous version deleted only when superseded", funcName(run))
-			sameKey, prevPos := false, false
-			for _, cf := range facts {
-				if cf.Call != nil && cf.Want {
-					if sc := cf.Call.Common().StaticCallee(); sc != nil && sc.Pkg != nil && sc.Pkg.Pkg.Path() == "bytes" && sc.Name() == "Equal" {
-						if resolve(cf.Call.Common().Args[0]) == curKey || resolve(cf.Call.Common().Args[1]) == curKey {
-							sameKey = true
-						}
-					}
-				}
-				if cf.X != nil && isZeroConst(cf.Y) && ((cf.Op == token.GTR && cf.Want) || (cf.Op == token.NEQ && cf.Want)) {
-					if _, isPhi := resolve(cf.X).(*ssa.Phi); isPhi {
-						prevPos = true
-					}
-				}
-			}
-			if sameKey && prevPos {
-				res.ok("C07-R3", construct, pos, "on the branch current user key == previous user key and prevRevision > 0: a newer version <= R of the same key exists")
-			} else {
-				res.bad("C07-R3", construct, pos, "the previous version is deleted without having established that the current record is a newer version (<= R) of the same key: the newest version <= R of a key can be removed")
-			}
-		}
-		if s.role == "current record" {
-			markerSite = s.call.(ssa.Instruction)
-			construct = fmt.Sprintf("%s: current record deleted only if it is a deletion marker", funcName(run))
-			isMarker := false
-			for _, cf := range facts {
-				if cf.Call != nil && cf.Want {
-					if sc := cf.Call.Common().StaticCallee(); sc != nil && sc.Pkg != nil && sc.Pkg.Pkg.Path() == "bytes" && sc.Name() == "Equal" {
-						if ts.is(cf.Call.Common().Args[0]) || ts.is(cf.Call.Common().Args[1]) {
-							isMarker = true
-						}
-					}
-				}
-			}
-			if isMarker {
-				res.ok("C07-R3", construct, pos, "dominated by value == deletion marker")
-			} else {
-				res.bad("C07-R3", construct, pos, "the current (newest <= R) record of a key is deleted although it is not a deletion marker: a live key vanishes")
-			}
-		}
+		chainList = append(chainList, s.role+": "+s.ch.describe(p))
 	}
-	if prevSite != nil && markerSite != nil {
-		construct := funcName(run) + ": within an iteration the marker is not deleted before the version it hides"
-		if reaches(markerSite, prevSite) && !crossesBackEdgeOnly(markerSite, prevSite) {
-			res.bad("C07-R3", construct, p.pos(markerSite.Pos()), "the deletion marker of a key is removed before the older version it hides: if the next delete fails or the compactor dies in between, the deleted key reappears at every revision")
-		} else {
-			res.ok("C07-R3", construct, p.pos(markerSite.Pos()), "the previous-version delete precedes the marker delete in the loop body")
-		}
-	}
+	res.Stats["deletion_chains"] = chainList
 
-	// ---- R4 ----
+	// skip-discipline roles
 	var updater *ssa.Function // the function that sets the skipped key
 	skipF := (*types.Var)(nil)
 	for _, f := range p.AllFuncs {
@@ -338,67 +172,238 @@ func checkC07(p *Prog, res *Result, tier string) {
 			}
 		}
 	}
+
+	perRole := map[string]int{}
+	var prevSite, markerSite ssa.Instruction // the top-level calls (in the scan loop) of those two roles
+	for _, s := range sites {
+		ch := s.ch
+		facts := ch.facts()
+		perRole[s.role]++
+		tag := fmt.Sprintf("%s site #%d", s.role, perRole[s.role])
+		pos := p.pos(ch.target.Pos())
+		top := ch.target
+		if len(ch.calls) > 0 {
+			top = ch.calls[0].(ssa.Instruction)
+		}
+		// ---- R1 ----
+		construct := fmt.Sprintf("%s: %s runs only when compacting", funcName(run), tag)
+		underCompact := false
+		for _, cf := range facts {
+			if isFieldLoad(cf.Raw, compactF) && cf.Want {
+				underCompact = true
+			}
+		}
+		if s.role == "expiry" {
+			okGuard := false
+			for _, cf := range facts {
+				if cf.X != nil && isFieldLoad(cf.X, timeoutF) && isZeroConst(cf.Y) && ((cf.Op == token.EQL && !cf.Want) || (cf.Op == token.NEQ && cf.Want)) {
+					okGuard = true
+				}
+			}
+			producedUnderCompact := true
+			for _, st := range p.fields().stores[timeoutF] {
+				for _, v := range allCellValues(p, st.Val) {
+					if isZeroConst(v) {
+						continue
+					}
+					if _, isParam := v.(*ssa.Parameter); isParam {
+						continue
+					}
+					ins := valueInstr(v)
+					if ex, ok := v.(*ssa.Extract); ok {
+						ins = ex.Tuple.(ssa.Instruction)
+					}
+					if ins == nil {
+						producedUnderCompact = false
+						continue
+					}
+					g := false
+					for _, cf := range dominatingFacts(ins.Block()) {
+						if prm, ok := p.resolveDeep(cf.Raw).(*ssa.Parameter); ok && cf.Want {
+							if bt, ok := prm.Type().Underlying().(*types.Basic); ok && bt.Kind() == types.Bool {
+								g = true
+							}
+						}
+					}
+					if !g {
+						producedUnderCompact = false
+					}
+				}
+			}
+			switch {
+			case !okGuard:
+				res.bad("C07-R1", construct, pos, "an expiry delete is not guarded by a non-zero timeout revision: a plain range read could delete records: "+ch.String())
+			case !producedUnderCompact:
+				res.bad("C07-R1", construct, pos, "the timeout revision can be non-zero for a scan that is not a compaction: range reads would expire records")
+			default:
+				res.ok("C07-R1", construct, pos, "guarded by timeoutRevision != 0, which is assigned non-zero only under the scan's compact flag")
+			}
+			continue
+		}
+		if underCompact {
+			res.ok("C07-R1", construct, pos, "the chain "+ch.String()+" passes workerConfig.compact == true")
+		} else {
+			res.bad("C07-R1", construct, pos, "a deletion site of the scan worker is reachable when the worker is not compacting: a range read deletes data: "+ch.String())
+		}
+		// ---- R2 ----
+		construct = fmt.Sprintf("%s: %s deletes nothing above the compaction revision", funcName(run), tag)
+		notAbove := false
+		for _, cf := range facts {
+			if cf.X != nil && ch.same(cf.X, cf.level, curRev, 0) && isFieldLoad(cf.Y, revF) && ((cf.Op == token.GTR && !cf.Want) || (cf.Op == token.LEQ && cf.Want)) {
+				notAbove = true
+			}
+		}
+		if !notAbove {
+			res.bad("C07-R2", construct, pos, "the site is not guarded by the false branch of 'decoded revision > compaction revision': versions newer than R can be deleted and reads at >= R change: "+ch.String())
+		} else if s.role != "current index" {
+			res.ok("C07-R2", construct, pos, "guarded by decoded revision <= R")
+		} else {
+			isIdx, len9, parsedOK := false, false, false
+			for _, cf := range facts {
+				if cf.X == nil {
+					continue
+				}
+				if ch.same(cf.X, cf.level, curRev, 0) && isZeroConst(cf.Y) && ((cf.Op == token.EQL && cf.Want) || (cf.Op == token.NEQ && !cf.Want)) {
+					isIdx = true
+				}
+				if k, ok := constInt(cf.Y); ok && k == 9 && ((cf.Op == token.EQL && cf.Want) || (cf.Op == token.NEQ && !cf.Want)) {
+					if c, ok := resolve(cf.X).(*ssa.Call); ok {
+						if bi, ok := c.Common().Value.(*ssa.Builtin); ok && bi.Name() == "len" {
+							len9 = true
+						}
+					}
+				}
+				if _, ok := decodedUint64(cf.X); ok && isFieldLoad(cf.Y, revF) && ((cf.Op == token.GTR && !cf.Want) || (cf.Op == token.LEQ && cf.Want)) {
+					parsedOK = true
+				}
+			}
+			switch {
+			case s.prim != "DelCurrent":
+				res.bad("C07-R2", construct, pos, "the index record is removed by an unconditional delete instead of compare-and-delete: a key re-created since the snapshot loses its index")
+			case !isIdx || !len9:
+				res.bad("C07-R2", construct, pos, "the index site is not restricted to index records (revision == 0) carrying the deletion flag (9 bytes): live keys lose their index")
+			case !parsedOK:
+				res.bad("C07-R2", construct, pos, "the index of a deleted key is removed without comparing the revision stored in it with the compaction revision: a delete newer than R (or an unresolved unknown-outcome delete) is compacted away")
+			default:
+				res.ok("C07-R2", construct, pos, "revision == 0, 9-byte value, parsed revision <= R, compare-and-delete")
+			}
+		}
+		// ---- R3 ----
+		if s.role == "previous version" {
+			prevSite = top
+			construct = fmt.Sprintf("%s: previous version deleted only when superseded", funcName(run))
+			sameKey, prevPos := false, false
+			for _, cf := range facts {
+				if cf.Call != nil && cf.Want {
+					if sc := cf.Call.Common().StaticCallee(); sc != nil && sc.Pkg != nil && sc.Pkg.Pkg.Path() == "bytes" && sc.Name() == "Equal" {
+						if ch.same(cf.Call.Common().Args[0], cf.level, curKey, 0) || ch.same(cf.Call.Common().Args[1], cf.level, curKey, 0) {
+							sameKey = true
+						}
+					}
+				}
+				if cf.X != nil && isZeroConst(cf.Y) && ((cf.Op == token.GTR && cf.Want) || (cf.Op == token.NEQ && cf.Want)) {
+					if _, isPhi := ch.up(cf.X, cf.level).(*ssa.Phi); isPhi {
+						prevPos = true
+					}
+				}
+			}
+			if sameKey && prevPos {
+				res.ok("C07-R3", construct, pos, "on the branch current user key == previous user key and prevRevision > 0: a newer version <= R of the same key exists")
+			} else {
+				res.bad("C07-R3", construct, pos, "the previous version is deleted without having established that the current record is a newer version (<= R) of the same key: the newest version <= R of a key can be removed")
+			}
+		}
+		if s.role == "current record" {
+			markerSite = top
+			construct = fmt.Sprintf("%s: current record deleted only if it is a deletion marker", funcName(run))
+			isMarker := false
+			for _, cf := range facts {
+				if cf.Call != nil && cf.Want {
+					if sc := cf.Call.Common().StaticCallee(); sc != nil && sc.Pkg != nil && sc.Pkg.Pkg.Path() == "bytes" && sc.Name() == "Equal" {
+						if ts.is(cf.Call.Common().Args[0]) || ts.is(cf.Call.Common().Args[1]) {
+							isMarker = true
+						}
+					}
+				}
+			}
+			if isMarker {
+				res.ok("C07-R3", construct, pos, "guarded by value == deletion marker")
+			} else {
+				res.bad("C07-R3", construct, pos, "the current (newest <= R) record of a key is deleted although it is not a deletion marker: a live key vanishes")
+			}
+		}
+		// ---- R4 (per chain) ----
+		if updater == nil || skipTest == nil {
+			continue
+		}
+		construct = fmt.Sprintf("%s: %s is preceded by the skipped-key test", funcName(run), tag)
+		guarded := false
+		for _, cf := range facts {
+			if cf.Call != nil && cf.Call.Common().StaticCallee() == skipTest && !cf.Want {
+				guarded = true
+			}
+		}
+		if guarded {
+			res.ok("C07-R4", construct, pos, "the chain passes isSkipped == false")
+		} else {
+			res.bad("C07-R4", construct, pos, "records of a key whose earlier delete failed in this pass are still deleted: e.g. the index survived but the versions go, so the key's history is cut in an inconsistent way: "+ch.String())
+		}
+		// the error of the engine delete reaches the skipped-key update
+		construct = fmt.Sprintf("%s: a failure of %s reaches the skipped-key update", funcName(run), tag)
+		val, level := ssa.Value(ch.target.(*ssa.Call)), len(ch.fns)-1
+		for level > 0 && onlyReturned(val) {
+			if cv, ok := ch.calls[level-1].(*ssa.Call); ok {
+				val, level = cv, level-1
+			} else {
+				break
+			}
+		}
+		f := ch.fns[level]
+		found, okPath := false, false
+		for _, b := range f.Blocks {
+			if ifOf(b) == nil {
+				continue
+			}
+			for sidx := 0; sidx < 2; sidx++ {
+				cf := edgeFact(edge{b, sidx})
+				if cf.X == nil || resolve(cf.X) != val || !isNilConst(cf.Y) || !((cf.Op == token.NEQ && cf.Want) || (cf.Op == token.EQL && !cf.Want)) {
+					continue
+				}
+				found = true
+				var upd ssa.Instruction
+				for _, c2 := range callsIn(f) {
+					if c2.Common().StaticCallee() == updater {
+						upd = c2.(ssa.Instruction)
+					}
+				}
+				ins, _ := searchFrom(b.Succs[sidx], 0, searchOpts{
+					stop: func(i ssa.Instruction) bool { return i == upd },
+					bad:  func(i ssa.Instruction) bool { _, ok := i.(*ssa.Return); return ok },
+				})
+				okPath = upd != nil && ins == nil
+			}
+		}
+		switch {
+		case !found:
+			res.bad("C07-R4", construct, pos, "the result of the engine delete is not tested")
+		case !okPath:
+			res.bad("C07-R4", construct, pos, "a failed delete returns without recording the key as skipped: later records of the same key are still deleted in this pass")
+		default:
+			res.ok("C07-R4", construct, pos, "every path from err != nil passes the skipped-key update (in "+funcName(f)+")")
+		}
+	}
+	if prevSite != nil && markerSite != nil {
+		construct := funcName(run) + ": within an iteration the marker is not deleted before the version it hides"
+		if reaches(markerSite, prevSite) && !crossesBackEdgeOnly(markerSite, prevSite) {
+			res.bad("C07-R3", construct, p.pos(markerSite.Pos()), "the deletion marker of a key is removed before the older version it hides: if the next delete fails or the compactor dies in between, the deleted key reappears at every revision")
+		} else {
+			res.ok("C07-R3", construct, p.pos(markerSite.Pos()), "the previous-version delete precedes the marker delete in the loop body")
+		}
+	}
 	if updater == nil || skipTest == nil {
 		res.und("C07-R4", "skip discipline", "-", "skipped-key update / test functions not found")
 	} else {
 		casFailed := p.global("pkg/storage", "ErrCASFailed")
-		// helpers issuing engine deletes
-		for _, f := range p.AllFuncs {
-			if f.Pkg != sp {
-				continue
-			}
-			for _, c := range callsIn(f) {
-				if !c.Common().IsInvoke() || (c.Common().Method != r.KVDel && c.Common().Method != r.KVDelCurrent) {
-					continue
-				}
-				cc := c.(*ssa.Call)
-				construct := fmt.Sprintf("%s: engine %s is preceded by the skipped-key test", funcName(f), c.Common().Method.Name())
-				guarded := false
-				for _, cf := range dominatingFacts(c.Block()) {
-					if cf.Call != nil && cf.Call.Common().StaticCallee() == skipTest && !cf.Want {
-						guarded = true
-					}
-				}
-				if guarded {
-					res.ok("C07-R4", construct, p.pos(c.Pos()), "dominated by isSkipped == false")
-				} else {
-					res.bad("C07-R4", construct, p.pos(c.Pos()), "records of a key whose earlier delete failed in this pass are still deleted: e.g. the index survived but the versions go, so the key's history is cut in an inconsistent way")
-				}
-				// failure path reaches the updater with the same error
-				construct = fmt.Sprintf("%s: a failed %s reaches the skipped-key update", funcName(f), c.Common().Method.Name())
-				found := false
-				for _, b := range f.Blocks {
-					if ifOf(b) == nil {
-						continue
-					}
-					for s := 0; s < 2; s++ {
-						cf := edgeFact(edge{b, s})
-						if cf.X == nil || resolve(cf.X) != ssa.Value(cc) || !isNilConst(cf.Y) || !((cf.Op == token.NEQ && cf.Want) || (cf.Op == token.EQL && !cf.Want)) {
-							continue
-						}
-						found = true
-						var upd ssa.Instruction
-						for _, c2 := range callsIn(f) {
-							if c2.Common().StaticCallee() == updater {
-								upd = c2.(ssa.Instruction)
-							}
-						}
-						ins, _ := searchFrom(b.Succs[s], 0, searchOpts{
-							stop: func(i ssa.Instruction) bool { return i == upd },
-							bad:  func(i ssa.Instruction) bool { _, ok := i.(*ssa.Return); return ok },
-						})
-						if upd == nil || ins != nil {
-							res.bad("C07-R4", construct, p.pos(c.Pos()), "a failed delete returns without recording the key as skipped: later records of the same key are still deleted in this pass")
-						} else {
-							res.ok("C07-R4", construct, p.pos(upd.Pos()), "every path from err != nil passes the skipped-key update")
-						}
-					}
-				}
-				if !found {
-					res.bad("C07-R4", construct, p.pos(c.Pos()), "the result of the engine delete is not tested")
-				}
-			}
-		}
 		// the updater records every error that is not a failed condition
 		construct := funcName(updater) + ": every error other than a failed condition sets the skipped key"
 		good := false
@@ -406,18 +411,13 @@ func checkC07(p *Prog, res *Result, tier string) {
 			if st.Parent() != updater {
 				continue
 			}
-			for _, cf := range dominatingFacts(st.Block()) {
+			for _, cf := range localFacts(st.Block()) {
 				if _, tgt, ok := errorsIsCall(cf.Raw); ok && !cf.Want && globalLoad(tgt) == casFailed {
 					good = true
 				}
 			}
-			// and nothing else restricts it
-			n := 0
-			for _, cf := range dominatingFacts(st.Block()) {
-				_ = cf
-				n++
-			}
-			if n != 1 {
+			// and nothing else inside the function restricts it
+			if len(localFacts(st.Block())) != 1 {
 				good = false
 			}
 		}
@@ -439,4 +439,23 @@ func checkC07(p *Prog, res *Result, tier string) {
 			res.add("C07-R6", o.Rule+" "+o.Construct, o.Status, o.Pos, o.Detail)
 		}
 	}
+}
+
+// onlyReturned: the value's only use (besides debug refs) is as a result of its function.
+func onlyReturned(v ssa.Value) bool {
+	refs := v.Referrers()
+	if refs == nil {
+		return false
+	}
+	n := 0
+	for _, r := range *refs {
+		switch r.(type) {
+		case *ssa.Return:
+			n++
+		case *ssa.DebugRef:
+		default:
+			return false
+		}
+	}
+	return n > 0
 }
